@@ -20,7 +20,7 @@ pub const DEF: PropDef = PropDef {
     id: "C01",
     run,
     oracle: exec_on_small_stack,
-    rule: "cases = (allowed set, history of 1..7 buffers <= 65535 bytes): 2/3 hostile (conformant streams over hostile template pools - zero-length fields, zero/huge counts, ids < 256 - with header/length mutations, truncation, splicing, raw bytes behind a version prefix, random bytes), 1/3 conformant wide streams; plus a deterministic depth/size stress family at the 64 KiB limit (maximal chains of minimal packets per version, maximal 1-byte records per set, maximal sets per packet, maximal templates per set, maximal fields per template, failing-record retry). Every case runs in a worker subprocess on a fresh 2 MiB thread: parse the whole history on one parser, then to_be_bytes / as_netflow_common / serde_json::to_string on every element and parse_bytes_as_netflow_common_flowsets on a twin parser. Oracle = returns normally (no panic, no abnormal process exit). non-trivial = a call after the first decodes data under a template cached by an earlier call, or some call returns >= 2 elements, or the case is from the stress family; distinct by digest.",
+    rule: "cases = (allowed set, history of 1..7 buffers <= 65535 bytes): 2/3 hostile (conformant streams over hostile template pools - zero-length fields, zero/huge counts, ids < 256 - with header/length mutations, truncation, splicing, raw bytes behind a version prefix, random bytes), 1/3 conformant wide streams; plus a deterministic depth/size stress family at the 64 KiB limit (maximal chains of minimal packets per version, maximal 1-byte records per set, maximal sets per packet, maximal templates per set, maximal fields per template, failing-record retry, V5/V7 record counts around 30 and at the datagram limit, histories of 66,000 calls). Every case runs in a worker subprocess on a fresh 2 MiB thread: parse the whole history on one parser, then to_be_bytes / as_netflow_common / serde_json::to_string on every element and parse_bytes_as_netflow_common_flowsets on a twin parser. Oracle = returns normally (no panic, no abnormal process exit). non-trivial = a call after the first decodes data under a template cached by an earlier call, or some call returns >= 2 elements, or the case is from the stress family; distinct by digest.",
     assumptions: &[
         "non-termination cannot be demonstrated by generated search: a no-progress watchdog reports INCONCLUSIVE (exit 2), never a violation",
         "stack depth is checked for the two cargo profiles (release, dev-like o0) of this toolchain on x86-64",
@@ -197,6 +197,18 @@ pub fn stress_family() -> Vec<(String, Case)> {
             let recs: Vec<Vec<u8>> = (0..n).map(|k| (0..rl).map(|i| (k * 7 + i * 3 + 1) as u8).collect()).collect();
             v.push(stress(&format!("v{}-{}-records", ver, n), vec![enc_fixed(ver, n as u16, &[3; 20], &recs)]));
         }
+    }
+    // histories longer than any 16-bit counter: 66,000 calls of one small packet each
+    {
+        let d = plain(vec![(1, 1)]);
+        let mut h9 = vec![v9_pkt(1, &tpl_set(Proto::V9, 256, &d))];
+        let mut h10 = vec![ipfix_msg(&tpl_set(Proto::Ipfix, 256, &d))];
+        for i in 0..66_000u32 {
+            h9.push(v9_pkt(1, &data_set(256, 1 + (i % 3) as usize, 7)));
+            h10.push(ipfix_msg(&data_set(256, 1 + (i % 3) as usize, 7)));
+        }
+        v.push(stress("history-66000-v9-packets", h9));
+        v.push(stress("history-66000-ipfix-messages", h10));
     }
     // chain of ipfix messages that each carry data under a cached template
     {
